@@ -113,21 +113,23 @@ CHECKS['C08'] = dict(
 
 _NOTVAL = ('The property proper (output equals the published algorithm for all inputs) is a value-level claim about hand-written SIMD '
            'and is NOT decided by this check; only the named structural necessary condition is.')
+_DEV = ' Added object-level consistency rules over the assembled kernels of this family (none decides the algorithm, each is a necessary condition that one dropped or altered line violates): key-size siblings differ only in round-dependent instructions; the constants of one increment table are added with one element width within a function; unsigned tests of a byte counter against one near-overflow constant agree on strictness within a function; no routine computes more never-read values or reads more never-defined registers than on the reference tree (per-routine counts of the reference tree).'
+
 CHECKS['C01'] = dict(
-    technique='static analysis: binding/dispatch agreement (name tokens of resolved callees under constant propagation of mode and key size)',
+    technique='static analysis: binding/dispatch agreement (name tokens of resolved callees under constant propagation of mode and key size); clone / contradiction / definition-use deviance rules over the assembled kernels (exact CFG, liveness and must-defined dataflow)',
     text=_NOTVAL + ' Decided: in each of the nine variant TUs (six never executed by the tests on this host) every accepted cipher table cell '
          'dispatches to kernels carrying the named mode, key size and direction, jobs are flushed from the manager they were parked in, and '
-         'every cipher macro->kernel binding agrees in key size/direction. A wrong constant or tail branch inside a kernel is invisible to it.',
+         'every cipher macro->kernel binding agrees in key size/direction.' + _DEV + ' A wrong constant applied consistently, or a reordered data flow inside one kernel, stays invisible.',
     design='§3 C01-C03', note=TB)
 CHECKS['C02'] = dict(
-    technique='static analysis: binding/dispatch agreement for hash/MAC/CRC kernels',
+    technique='static analysis: binding/dispatch agreement for hash/MAC/CRC kernels; clone and definition-use deviance rules over the assembled kernels',
     text=_NOTVAL + ' Decided: every hash table cell of every variant dispatches algorithm i to kernels of that algorithm and digest size (HMAC '
-         'and plain kept apart), with submit/flush on the same out-of-order manager, and hash bindings agree in digest/key size/operation.',
+         'and plain kept apart), with submit/flush on the same out-of-order manager, and hash bindings agree in digest/key size/operation.' + _DEV,
     design='§3 C01-C03', note=TB)
 CHECKS['C03'] = dict(
-    technique='static analysis: binding/dispatch agreement for AEAD and combined modes',
+    technique='static analysis: binding/dispatch agreement for AEAD and combined modes; clone / contradiction / definition-use deviance rules over the assembled kernels',
     text=_NOTVAL + ' Decided: for GCM, GCM-SGL, CCM, ChaCha20-Poly1305(-SGL), SNOW-V-AEAD, SM4-GCM, DOCSIS-BPI and PON both table halves of every '
-         'variant dispatch the accepted (mode, key) to kernels of that mode, key size and direction; paired hash algorithms reach their own kernels.',
+         'variant dispatch the accepted (mode, key) to kernels of that mode, key size and direction; paired hash algorithms reach their own kernels.' + _DEV,
     design='§3 C01-C03', note=TB)
 CHECKS['C09'] = dict(
     technique='static analysis: constant propagation through each burst helper and comparison of the reached kernel set with the job-API table cell; CFG rules for COMPLETED hand-back',
@@ -145,13 +147,15 @@ CHECKS['C11'] = dict(
     design='§3 C11', note=TB)
 
 CHECKS['C04'] = dict(
-    technique='static analysis: CFG typestate on the C multi-buffer managers; typed abstract interpretation of the assembled managers (stores classified by C record layout); guard-catalogue bounds vs 16-bit lane lengths',
+    technique='static analysis: CFG typestate on the C multi-buffer managers; typed abstract interpretation of the assembled managers (stores classified by C record layout; provenance of lane-minimum values); guard-catalogue bounds vs 16-bit lane lengths; definition-use deviance rules',
     text='NOT decided: that SIMD lanes never influence each other and that scheduling arithmetic is right for every occupancy (value-level). '
          'Decided (lane bookkeeping): the C SHA managers pop/park on submit and push/clear/complete on every completed return, neutralise idle '
          'lanes on flush, and the three width-siblings agree; each of the ~160 assembled out-of-order manager routines with a job_in_lane array '
          'that completes a job also clears the slot and returns the lane, submit parks the job argument and pops a lane, and the stage bit is the '
-         'manager\'s own; every mode/algorithm parked in a manager with 16-bit lane lengths has a validation bound <= 0xFFFF (this rule found K12).',
-    design='§3 C04', note=TB_ASM + '; managers that keep job_in_lane inside ldata[lane] (HMAC, XCBC) are addressed through computed pointers the typed view does not follow (counted in evidence)')
+         'manager\'s own; every mode/algorithm parked in a manager with 16-bit lane lengths has a validation bound <= 0xFFFF (this rule found K12); '
+         'in every manager routine the block count handed to the multi-lane kernel and the vector subtracted from all lane lengths derive from the '
+         'same lane-minimum search on every path (provenance domain); manager routines hold no more never-read values / never-defined reads than on the reference tree.',
+    design='§3 C04', note=TB_ASM)
 CHECKS['C13'] = dict(
     technique='static analysis: CFG must-scrub typestate on C locals, arch-sibling agreement, zero/non-zero abstract interpretation of vector registers at every exit of every assembled function, typed zero-store coverage of manager fields against a reference baseline',
     text='Partial; each clause is a necessary condition. C side: locals the code scrubs are scrubbed on every path from their uses to every return '
@@ -180,7 +184,8 @@ CHECKS['C07'] = dict(
          'tag length": the accepted tag lengths of every hash algorithm are extracted from the validator of every variant; in every assembled routine '
          'the hash dispatch reaches, each store of constant extent through a pointer loaded from job->auth_tag_output lies within the smallest accepted '
          'tag length compatible with the comparisons / bit tests of that job\'s tag-length field which hold at the store on every path; C call sites that '
-         'hand the tag pointer to a callee taking a tag length pass that job\'s tag length. Masked, byte-granular and run-time-indexed tag stores, tag '
+         'hand the tag pointer to a callee taking a tag length pass that job\'s tag length; routines whose vector stores to one destination family '
+         'are all masked on the reference tree keep them masked. Masked, byte-granular and run-time-indexed tag stores, tag '
          'stores of cipher-side AEAD routines and of algorithms whose tag guard is conditional are counted, not decided.',
     design='§3 C07', note=TB_ASM + '; ZUC-256 EIA3 routines are a reasoned exception (one manager per tag size)')
 
